@@ -57,8 +57,10 @@ def judge(res, code, feats, cfg, strict, perm):
     paths, complete = evmref.enumerate_paths(code, max_paths=512, max_steps=20000)
     predicted = set()
     low_gas = cfg.get("gas", 30_000_000) < 1_000_000
-    if complete and not low_gas:
-        predicted = {p.error for p in paths if p.error}
+    # the reference speaks for the library only where the library's own bounds cannot cut a path short: default
+    # visit / fork limits, and no instruction executed twice on the path
+    if complete and not low_gas and "iters" not in cfg and "forks" not in cfg:
+        predicted = {p.error for p in paths if p.error and len(set(p.executed)) == len(p.executed)}
     res.judged += 1
     gl = cfg.get("gas", 30_000_000)
     ev_s, ev_p = raised_events(strict, gl), raised_events(perm, gl)
